@@ -190,8 +190,9 @@ class ReadOff:
         return self.transform(a) if self.transform else a
 
 
-def read_affine(ctx, sigtail, case, dist, N, transform=None):
-    """Returns (mean_obs (dim,), L (dim, m_total)) or None after having reported a mismatch."""
+def read_affine(ctx, sigtail, case, dist, N, transform=None, tol=1e-9):
+    """Returns (mean_obs (dim,), L (dim, m_total)) or None after having reported a mismatch.
+    tol: accuracy of the linear solves behind the sampler (relative to the magnitude of the output)."""
     ro = ReadOff(dist, N, transform)
     s0, reqs = ro.call(None)
     if not check_return(ctx, "return_shape/" + sigtail, case, dist, s0, N):
@@ -215,7 +216,7 @@ def read_affine(ctx, sigtail, case, dist, N, transform=None):
             col = S[:, 0] - S0[:, 0]
             # column-wise law: column c = mean + w_c * L e_i
             exp = S0 + np.outer(col, w)
-            if not np.allclose(S, exp, rtol=1e-9, atol=1e-9 * max(1.0, np.abs(exp).max())):
+            if not np.allclose(S, exp, rtol=tol, atol=tol * max(1.0, np.abs(exp).max())):
                 ctx.mismatch("columns/" + sigtail, case, "draws of one call are not mean + L z_c column by column "
                              "(request %d, basis vector %d, column weights %r)" % (r, i, w.tolist()), exp, S)
                 return None
@@ -233,10 +234,10 @@ def read_affine(ctx, sigtail, case, dist, N, transform=None):
     s, _ = ro.call(blocks)
     S = ro.matrix(s)
     exp = S0 + L @ np.vstack(z_all)
-    if S is None or not np.allclose(S, exp, rtol=1e-9, atol=1e-9 * max(1.0, np.abs(exp).max())):
+    if S is None or not np.allclose(S, exp, rtol=tol, atol=tol * max(1.0, np.abs(exp).max())):
         ctx.mismatch("affine_map/" + sigtail, case, "sample(e) is not an affine function mean + L e of the normal draws", exp, S)
         return None
-    if not np.allclose(S0, S0[:, [0]] @ np.ones((1, N))):
+    if not np.allclose(S0, S0[:, [0]] @ np.ones((1, N)), rtol=tol, atol=tol):
         ctx.mismatch("columns/" + sigtail, case, "columns differ although all normal draws are zero", S0[:, 0], S0)
         return None
     return S0[:, 0], L
@@ -430,7 +431,7 @@ def run_gmrf(ctx, variants, Ns=(1, 3)):
     for N in Ns:
         sig = key + "/N=%d" % N
         try:
-            got = read_affine(ctx, sig, case, dist, N)
+            got = read_affine(ctx, sig, case, dist, N, tol=tol)
         except NotImplementedError as e:
             ctx.observations.setdefault("gmrf_sampling_not_implemented", {})[key] = str(e)[:100]
             return
@@ -622,8 +623,9 @@ def run_wiring(ctx, c):
 
 # ----------------------------------------------------------------------------------------------- facet 3
 def _digest():
-    from cuqiverif.script_rng import global_state_digest
-    return global_state_digest()
+    """Value identifying the state of numpy's global random stream (compared for equality before / after a call)."""
+    s = np.random.get_state()
+    return (hash(s[1].tobytes()), s[2], s[3], s[4])
 
 
 def _rs_digest(rs):
@@ -667,12 +669,37 @@ def stream_families():
     return fams
 
 
+_RNG_POOL = {}
+
+
 def new_rng(name):
-    if name in ("r1", "r2"):
-        return np.random.RandomState(SEED_LOCAL)
+    """Generator object `name` in its freshly seeded state (r1, r2: two RandomState objects with the same seed;
+    gen: numpy Generator).  Objects are pooled and put back to the seeded state (seeding is the expensive part)."""
+    if name not in _RNG_POOL:
+        if name in ("r1", "r2"):
+            g = np.random.RandomState(SEED_LOCAL)
+            _RNG_POOL[name] = (g, g.get_state())
+        elif name == "gen":
+            g = np.random.default_rng(SEED_LOCAL)
+            _RNG_POOL[name] = (g, g.bit_generator.state)
+        else:
+            machinery("unknown generator %r in behaviour" % name)
+    g, st = _RNG_POOL[name]
     if name == "gen":
-        return np.random.default_rng(SEED_LOCAL)
-    machinery("unknown generator %r in behaviour" % name)
+        g.bit_generator.state = st
+    else:
+        g.set_state(st)
+    return g
+
+
+_GSTATE = []
+
+
+def _global_seeded_state():
+    if not _GSTATE:
+        np.random.seed(SEED_GLOBAL)
+        _GSTATE.append(np.random.get_state())
+    return _GSTATE[0]
 
 
 class FamilyRun:
@@ -689,9 +716,10 @@ class FamilyRun:
 
 def run_behaviour(ctx, fam, steps):
     """Executes one TLC behaviour on the real distributions of one family; compares after every action."""
-    np.random.seed(SEED_GLOBAL)
+    np.random.set_state(_global_seeded_state())
     rngs = {}
     case = {"kind": "behaviour", "family": fam.name, "steps": steps}
+    g1 = _digest()
     tail = "family=%s" % fam.name
     for k, st in enumerate(steps):
         if st["act"] == "rewind":
@@ -702,7 +730,7 @@ def run_behaviour(ctx, fam, steps):
             rngs[r] = new_rng(r)
         dist = fam.objs[st["d"]]
         N = st["N"]
-        g0 = _digest()
+        g0 = g1
         try:
             with quiet():
                 s = dist.sample(N) if r == "none" else dist.sample(N, rng=rngs[r])
@@ -788,11 +816,46 @@ def _group_gmrf(cases):
     return groups
 
 
+def tlc_jobs(ctx, jobs):
+    """Runs the TLC invocations `jobs` = [(cfg, workers, expect_violation)] concurrently (JVM start-up dominates) and
+    accounts them in the run context exactly like ctx.tlc does."""
+    import os
+    from concurrent.futures import ThreadPoolExecutor
+    from cuqiverif import tlc as _tlc
+
+    def one(job):
+        cfg, workers, expect = job
+        wd = os.path.join(_tlc.WORK, "Sampling-%d-%s" % (os.getpid(), cfg.replace(".cfg", "").replace("Sampling.", "")))
+        return _tlc.run_tlc("Sampling", cfg=cfg, workers=workers, timeout=1500, extra_modules=EXTRA, expect_violation=expect, workdir=wd)
+    with ThreadPoolExecutor(max_workers=len(jobs)) as ex:
+        futs = [ex.submit(one, j) for j in jobs]
+        out = []
+        err = None
+        for (cfg, _, _), f in zip(jobs, futs):
+            try:
+                res = f.result()
+            except Exception as e:          # let the other JVMs finish, then report the first failure
+                err = err or e
+                out.append(None)
+                continue
+            ctx.states += res.distinct
+            ctx.transitions += res.generated
+            ctx.tlc_runs.append({"spec": "Sampling", "cfg": cfg, "distinct": res.distinct, "generated": res.generated, "depth": res.depth,
+                                 "wall_s": round(res.wall_s, 2), "cases": len(res.cases), "violated": res.violated, "coverage": None})
+            out.append(res)
+    if err is not None:
+        raise err
+    return out
+
+
 def run(ctx):
     from cuqiverif import tlc as _tlc
     thorough = ctx.tier == "thorough"
+    jobs = [("Sampling.cases.%s.cfg" % ctx.tier, 8, False), ("Sampling.stream.%s.cfg" % ctx.tier, 4, False),
+            ("Sampling.deep.%s.cfg" % ctx.tier, 4, False)] + [(cfg, 2, True) for cfg, _ in DEVIATIONS]
+    results = tlc_jobs(ctx, jobs)
+    res, res3, res4 = results[:3]
     # ---- model checking + case emission (facets 1, 2)
-    res = ctx.tlc("Sampling", cfg="Sampling.cases.%s.cfg" % ctx.tier, workers=16, timeout=1500, extra_modules=EXTRA)
     ctx.model_must_hold(res, "Sampling/cases")
     cases = res.cases
     _tlc.cleanup(res)
@@ -805,8 +868,7 @@ def run(ctx):
         if res.ok and not kinds.get(k):
             machinery("vacuous: no %s case emitted" % k)
     # ---- named deviations: each must produce a counterexample to its invariant (non-vacuity, design-level explanation)
-    for cfg, inv in DEVIATIONS:
-        r = ctx.tlc("Sampling", cfg=cfg, workers=4, timeout=600, extra_modules=EXTRA, expect_violation=True)
+    for (cfg, inv), r in zip(DEVIATIONS, results[3:]):
         _tlc.cleanup(r)
         if r.violated != inv:
             machinery("deviation run %s did not violate %s (got %r): invariant is vacuous" % (cfg, inv, r.violated))
@@ -824,11 +886,9 @@ def run(ctx):
         run_wiring(ctx, c)
     ctx.traces += len(kinds.get("gauss", [])) + len(kinds.get("bigdiag", [])) + len(groups) + len(kinds.get("wiring", []))
     # ---- stream state machine
-    res3 = ctx.tlc("Sampling", cfg="Sampling.stream.%s.cfg" % ctx.tier, workers=16, timeout=1500, extra_modules=EXTRA)
     ctx.model_must_hold(res3, "Sampling/stream")
     beh = res3.cases
     _tlc.cleanup(res3)
-    res4 = ctx.tlc("Sampling", cfg="Sampling.deep.cfg", workers=16, timeout=1500, extra_modules=EXTRA)
     ctx.model_must_hold(res4, "Sampling/deep")
     deep = res4.cases
     _tlc.cleanup(res4)
@@ -838,7 +898,7 @@ def run(ctx):
     order = rs.permutation(len(beh))           # VERIF_SEED only selects which family replays which behaviour
     beh = [beh[i] for i in order]
     run_streams(ctx, beh, 2, "stream")
-    run_streams(ctx, deep, 0 if thorough else 3, "deep")
+    run_streams(ctx, deep, 0 if thorough else 4, "deep")
     # ---- evidence
     def pick(kind, pred=lambda c: True):
         for c in kinds.get(kind, []):
